@@ -213,7 +213,7 @@ func runRaceJob(raw json.RawMessage) any {
 	res := raceReal{Races: []string{}}
 	select {
 	case <-done:
-	case <-time.After(60 * time.Second):
+	case <-time.After(240 * time.Second):
 		cmd.Process.Kill()
 		<-done
 		res.Hang = true
